@@ -379,7 +379,7 @@ CONSTANTS
  Size = 4
  Block = 2
  Total = %(total)d
- MaxChunk = 2
+ MaxChunk = %(maxchunk)d
  NClose = %(nclose)d
  PMode = "%(pmode)s"
  CMode = "%(cmode)s"
@@ -392,7 +392,7 @@ CONSTANTS
  Hist = %(hist)s
  MaxHist = 400
 """
-RING_BASE = dict(spec="Spec", total=4, nclose=1, pmode="calls", cmode="calls", pops='{"W"}', cops='{"RW"}',
+RING_BASE = dict(spec="Spec", maxchunk=2, total=4, nclose=1, pmode="calls", cmode="calls", pops='{"W"}', cops='{"RW"}',
                  stale="FALSE", leak="FALSE", closemu="FALSE", eager="FALSE", hist="FALSE")
 RING_GEN = [  # (name, overrides, quick?)
     ("w-rw", {}, True),
@@ -400,6 +400,8 @@ RING_GEN = [  # (name, overrides, quick?)
     ("w-r", dict(cops='{"R"}'), True),
     ("ww-pump", dict(pops='{"WW"}', cmode="pump"), True),
     ("w-rw-noclose", dict(nclose=0, total=6), True),
+    # calls that ask for more than one read block (3 of the ring's 4 units): a producer may wait for more room than a block
+    ("ww-rp-chunk3", dict(pops='{"WW"}', cops='{"RP"}', maxchunk=3, nclose=0, total=7), True),
     ("pump-rw", dict(pmode="pump"), False),
     ("pump-pump", dict(pmode="pump", cmode="pump"), False),
     ("w-rw-close2", dict(nclose=2), False),
@@ -613,7 +615,7 @@ def c03(tier):
     for c in cases:
         by[c["case"]["ty"]] = by.get(c["case"]["ty"], 0) + 1
     res = core.merge(core.run_sharded(["codec"], cases, timeout=900))
-    account(v, res, "reference-cases", {"cases_by_type": by})
+    account(v, res, "reference-cases", {"cases_by_type": by}, own={"C03", "C04"})
     v.cov["distinct_nontrivial"] += len(cases)
     # messages changed through their setters after Decode (as the broker does), and packets with a non-minimal remaining length
     mods = codec_variants(v, "mods")
@@ -657,6 +659,9 @@ def c04(tier):
     account(v, res, "short-strings", {"strings": len(strs), "wellformed": sum(1 for x in strs if x["p"]["ok"]),
                                       "lenient_accepts": res.get("counts", {}).get("lenient_accepts", 0)})
     v.cov["distinct_nontrivial"] += len(strs)
+    # every reference case (all 14 types, boundary lengths, repeated filters) is accepted with its field values
+    resc = core.merge(core.run_sharded(["codec"], cases, timeout=900))
+    account(v, resc, "reference-cases(decode direction)", own={"C04"})
     pads = codec_variants(v, "pads")
     resp = core.merge(core.run_sharded(["codec"], pads, timeout=900))
     account(v, resp, "padded-remaining-length", {"accepted": resp.get("counts", {}).get("padded_accepted", 0),
